@@ -73,9 +73,19 @@ Definition lines_eqb := list_eqb line_eqb.
 Definition L2list (c : ccase) :=
   match k_list c with
   | None => true
-  | Some l => negb (k_ok c) || ambiguous (k_cfg c) (k_chroms c)
-              || (if m_cur c then lines_eqb l (list_current (k_cfg c) (k_chroms c) (k_user c))
-                  else lines_eqb l (list_fixed (k_cfg c) (k_chroms c) (k_user c)))
+  | Some l =>
+      let pf := if m_cur c then plan_current else plan_fixed in
+      negb (k_ok c) || ambiguous (k_cfg c) (k_chroms c)
+      || lines_eqb l (list_run list_entry pf (k_cfg c) (k_chroms c) (k_user c))
+      || lines_eqb l (list_run list_entry_fixed pf (k_cfg c) (k_chroms c) (k_user c))
+  end.
+Definition LEAK (c : ccase) :=       (* false iff the list matches only the repaired list rule *)
+  match k_list c with
+  | None => true
+  | Some l =>
+      let pf := if m_cur c then plan_current else plan_fixed in
+      negb (k_ok c) || lines_eqb l (list_run list_entry pf (k_cfg c) (k_chroms c) (k_user c))
+      || negb (lines_eqb l (list_run list_entry_fixed pf (k_cfg c) (k_chroms c) (k_user c)))
   end.
 (* the list agrees with the written BAM records *)
 Definition L1list (c : ccase) :=
@@ -295,7 +305,9 @@ def case_term(case, res):
             k = order.index(swp["sample"]) if swp["sample"] in order else -1
             smp = []
             for r in res["out"]:
-                if single:
+                if r["tid"] < 0:
+                    smp.append(None)        # unplaced unmapped tail: copied with whatever tags it had
+                elif single:
                     smp.append(opt(0))
                 else:
                     smp.append(opt(order.index(r["sample"]) if r["sample"] in order else None))
@@ -311,7 +323,7 @@ def nontrivial(res):
 
 
 CHECKS = {"L1cons": "L1cons", "L1tag": "L1tag", "L1swap": "L1swap", "L1list": "L1list", "L2": "L2", "L2list": "L2list",
-          "NOTAMB": "NOTAMB", "CURRENT": "CURRENT"}
+          "NOTAMB": "NOTAMB", "CURRENT": "CURRENT", "LEAK": "LEAK"}
 
 
 def check_cases(ctx, cases, label, report=True):
@@ -352,6 +364,8 @@ def check_cases(ctx, cases, label, report=True):
             ctx.tally("cli.l2_order_free(F7)")
         if "CURRENT" in fails:
             ctx.tally("cli.matches_repaired_region_rule_only")
+        if "LEAK" in fails:
+            ctx.tally("cli.matches_repaired_list_rule_only")
     return out
 
 
@@ -622,7 +636,7 @@ def run(ctx):
     for e in ev[:1] + ev[-2:]:
         ctx.sample({"opts": e["case"]["opts"], "ploidy": e["case"]["ploidy"], "input_alignments": len(e["res"]["inp"]),
                     "output_records": len(e["res"]["out"]), "tagged": sum(1 for x in e["res"]["out"] if x["tags"][0] is not None),
-                    "failed_checks": sorted(e["fails"] - {"NOTAMB", "CURRENT"})})
+                    "failed_checks": sorted(e["fails"] - {"NOTAMB", "CURRENT", "LEAK"})})
     l2 = report_cli(ctx, ev)
     if ul2 or l2:
         ctx.disagreements_checked += len(ul2) + len(l2)
